@@ -87,6 +87,27 @@ func blsAware(coordLen int) []func([]byte, int) []byte {
 	}
 }
 
+// coordEdge: a field-element encoding of n bytes that sits on an edge: 0, 1, p-1, p, 2^(8n)-1.
+func coordEdge(p *big.Int, n, a int) []byte {
+	var x *big.Int
+	switch ((a % 5) + 5) % 5 {
+	case 0:
+		x = big.NewInt(0)
+	case 1:
+		x = big.NewInt(1)
+	case 2:
+		x = new(big.Int).Sub(p, big.NewInt(1))
+	case 3:
+		x = new(big.Int).Set(p)
+	default:
+		x = new(big.Int).Sub(new(big.Int).Lsh(big.NewInt(1), uint(8*n)), big.NewInt(1))
+	}
+	if x.BitLen() > 8*n {
+		x = big.NewInt(0)
+	}
+	return x.FillBytes(make([]byte, n))
+}
+
 func init() {
 	// ---- BLS12-381 G1 / G2 ----
 	for _, comp := range []bool{true, false} {
@@ -545,11 +566,40 @@ func init() {
 			return func(in []byte) Result { return decodeInto(e, in) }
 		}
 		Register(&Entry{Name: "group[" + gname + "].Element.UnmarshalBinary(compressed)", Canon: true, Membership: true, Cost: cost, Seeds: 10,
-			Valid: func(seed uint64) []byte { b, _ := elt(seed).MarshalBinaryCompress(); return b }, Call: call, Reuse: reuse})
+			Valid: func(seed uint64) []byte { b, _ := elt(seed).MarshalBinaryCompress(); return b }, Call: call, Reuse: reuse,
+			Aware: []func([]byte, int) []byte{
+				func(v []byte, a int) []byte { // prefix kept, x := 0 / 1 / p-1 / p / all ones
+					if len(v) < 3 || curve == nil {
+						return nil
+					}
+					return append(v[:1], coordEdge(curve.Params().P, len(v)-1, a)...)
+				},
+			}})
 		if g != group.Ristretto255 {
 			Register(&Entry{Name: "group[" + gname + "].Element.UnmarshalBinary(uncompressed)", Canon: true, Membership: true, Cost: cost, Seeds: 10,
 				Valid: func(seed uint64) []byte { b, _ := elt(seed).MarshalBinary(); return b }, Call: call, Reuse: reuse,
 				Aware: []func([]byte, int) []byte{
+					func(v []byte, a int) []byte { // prefix kept, (x,y) := edge values, (0,0) first
+						if len(v) < 3 {
+							return nil
+						}
+						bl := (len(v) - 1) / 2
+						out := append([]byte{}, v[:1]...)
+						out = append(out, coordEdge(curve.Params().P, bl, a%5)...)
+						return append(out, coordEdge(curve.Params().P, bl, (a/5)%5)...)
+					},
+					func(v []byte, a int) []byte { // one coordinate replaced by an edge value, the other kept
+						if len(v) < 3 {
+							return nil
+						}
+						bl := (len(v) - 1) / 2
+						if a%2 == 0 {
+							copy(v[1:1+bl], coordEdge(curve.Params().P, bl, a/2))
+						} else {
+							copy(v[1+bl:], coordEdge(curve.Params().P, bl, a/2))
+						}
+						return v
+					},
 					func(v []byte, a int) []byte { // x + p if it fits in the byte length
 						if len(v) < 3 {
 							return nil
